@@ -44,13 +44,15 @@ void h_print(void)
     binson_parser_init_object(&p, buf, VC_N);
 #endif
 
-    /* 1. size query with a NULL buffer and a stale *size */
+#if VC_MODE == 1
+    /* size query with a NULL buffer and a stale *size */
     size_t q = nondet_size_t();
     bool r0 = binson_parser_to_string(&p, NULL, &q, false);
     __CPROVER_assert(!r0, "a NULL buffer never succeeds");                                                          /*@ B/null-query-false */
     __CPROVER_assert(!valid || q == need + 1, "NULL query reports text length + terminator");                       /*@ B/size-exact */
-
-    /* 2. a buffer of exactly cap bytes */
+    bool r = valid;
+#elif VC_MODE == 2
+    /* a buffer of exactly cap bytes, every capacity 0..needed+2 */
     size_t cap = nondet_size_t();
     __CPROVER_assume(cap <= need + 2 && cap <= VC_OUTMAX);
     char *out = malloc(cap);
@@ -69,7 +71,8 @@ void h_print(void)
             __CPROVER_assert(out[need] == 0, "text is NUL-terminated");                                             /*@ B/terminated */
         }
     }
-    /* 3. print writes the same text to stdout */
+#else
+    /* print writes the reference rendering to stdout */
     vc_stdout_len = 0;
     bool rp = binson_parser_print(&p);
     __CPROVER_assert(rp == (valid != 0), "print succeeds exactly on valid documents");                              /*@ B/print-iff-valid */
@@ -79,6 +82,8 @@ void h_print(void)
         __CPROVER_assume(g2 < need);
         __CPROVER_assert(vc_stdout[g2] == exp[g2], "print emits the reference rendering byte for byte");            /*@ B/print-equal */
     }
+    bool r = valid;
+#endif
     if (valid && r) { __CPROVER_assert(0, "vacuity control: a valid document rendered successfully"); }
     if (!valid) { __CPROVER_assert(0, "vacuity control: an invalid document of this length exists"); }
 }
